@@ -212,6 +212,12 @@ def run(ck):
               "carries the unsent tail -- a resumed drain that discards the parked entry never delivers what was pending",
               key_pred=lambda k: k.endswith("no-entry-dropped-unsettled") or k.endswith("requeue-carries-tail"), min_instances=2)
 
+    ck.borrow("C13", ["C13-R3"], "C07-R13",
+              "the queue through which responses reach a worker is shared by all its connections, and its wake-up is consumed by the first "
+              "pop: the worker moves every queued write to its connection's FIFO whatever state any one connection is in -- a drain that "
+              "stops because one peer's FIFO is long (head-of-line blocking) leaves the other peers' responses in the mailbox until the "
+              "stalled peer reads again", key_pred=lambda k: k.startswith("drain-loop:Pistache::Tcp::Transport::"), min_instances=3)
+
     # ---------------- R9: an idle worker sleeps in epoll_wait ----------------
     ck.rule("C07-R9", "dataflow identity",
             "Epoll::poll hands its timeout parameter to epoll_wait unchanged (through casts only), and the reactor's loop calls it with "
